@@ -69,7 +69,14 @@ pub fn check_mode(
     };
     let ids = shared.parse_ids.lock().unwrap().clone().unwrap();
     let mut insertions = 0;
-    if mode == "insert" {
+    if mode == "reemit-insert" {
+        // the Module was emitted before; the transform of the next emit must
+        // not carry anything over
+        if wal::emit(&mut m).is_err() {
+            return Ok(None);
+        }
+    }
+    if mode == "insert" || mode == "reemit-insert" {
         let mut ch = Ch::new(edit_bytes);
         let n = 1 + ch.below(4);
         for _ in 0..n {
@@ -352,7 +359,7 @@ pub fn check(ctx: &Ctx, input: &Input) -> CaseResult {
     let mut total_pairs = 0;
     let mut interesting = false;
     let mut cov = (0usize, 0usize);
-    for mode in ["plain", "insert", "gc", "plain+dwarf"] {
+    for mode in ["plain", "insert", "gc", "plain+dwarf", "reemit-insert"] {
         if let Some(r) = check_mode(ctx, &bytes, mode, &edit_bytes, &origin, &mut out)? {
             total_pairs += r.pairs_checked;
             if r.reordered || r.insertions > 0 {
